@@ -17,6 +17,24 @@ from dsim.world import METASCHEMA_IDS, idkw_of
 _HEX = re.compile(r"0x[0-9a-fA-F]+")
 
 
+GC_GUARD = {"depth": 0}
+
+
+def guarded_collect():
+    """gc.collect() during which the C18 thread scheduler does not switch threads.
+
+    CPython's collector is not re-entrant: if one thread is pre-empted in the middle of a collection (inside a
+    finaliser that runs traced library code), gc.collect() in every other thread returns at once WITHOUT
+    collecting.  An actor that relies on "the collector ran before my next operation" would then re-enter a
+    validator whose abandoned iterator is still suspended - the excluded hazard, produced by the harness.
+    """
+    GC_GUARD["depth"] += 1
+    try:
+        return gc.collect()
+    finally:
+        GC_GUARD["depth"] -= 1
+
+
 class ConsumerDied(Exception):
     pass
 
@@ -208,7 +226,7 @@ class Actor(object):
                 self.probe("scope_stack_deeper_than_base_after_op")
             now = self.resolver.resolution_scope
             if now != self.scope0 and ended_in_exception:
-                gc.collect()
+                guarded_collect()
                 now = self.resolver.resolution_scope
                 if now == self.scope0:
                     self.probe("scope_restored_only_after_gc_of_dead_consumer")
@@ -260,7 +278,7 @@ class GcAt(object):
             if self.step >= self.n:
                 self.fired = True
                 before = self.actor.depth()
-                gc.collect()
+                guarded_collect()
                 self.actor.probe("fault:gc_inside_operation")
                 if self.actor.depth() != before:
                     self.actor.probe("gc_inside_operation_changed_scope_stack")
@@ -393,7 +411,7 @@ def do_op(actor, op, instances):
               out = t.outcome()
           elif kind == "gc":
               before = actor.depth()
-              gc.collect()
+              guarded_collect()
               if actor.pending_cycle and actor.depth() < before:
                   actor.probe("gc_finalised_iterator_and_popped")
               actor.pending_cycle = False
